@@ -241,7 +241,11 @@ func c11Relayout(src, ws string) (string, bool) {
 		if i+1 < len(toks) && toks[i+1].Kind != lexer.EOF {
 			end = toks[i+1].Column
 		}
-		parts = append(parts, strings.TrimSpace(string(runes[t.Column:end])))
+		text := strings.TrimSpace(string(runes[t.Column:end]))
+		if t.Kind == lexer.Operator && t.Value == "not in" {
+			text = "not" + ws + "in" // the whitespace between the two words of this operator is insignificant too
+		}
+		parts = append(parts, text)
 	}
 	return strings.Join(parts, ws), true
 }
